@@ -12,3 +12,122 @@ Definition pam_part (pmax : N) (s : bytes) : bytes := enc_part (pam_clip pmax s)
 (* _whawty_send_request: user, password, "" (service), "" (realm) *)
 Definition pam_request (pmax : N) (user pw : bytes) : bytes :=
   pam_part pmax user ++ pam_part pmax pw ++ pam_part pmax [] ++ pam_part pmax [].
+
+(* ------------------------------------------------------------------ *)
+(* module options, password acquisition, response reader, result mapping *)
+
+Inductive pam_code :=
+| PAM_SUCCESS | PAM_AUTH_ERR | PAM_AUTHINFO_UNAVAIL | PAM_AUTHTOK_RECOVERY_ERR.
+
+Record pam_opts := {
+  po_try_first : bool; po_use_first : bool; po_not_set_pass : bool;
+  po_sock : option bytes;          (* None = default path *)
+  po_timeout : N                   (* seconds *)
+}.
+
+(* C atoi on the argument text: optional sign, leading digits (no overflow in
+   the generated range) *)
+Fixpoint digits_prefix (acc : N) (s : bytes) : N :=
+  match s with
+  | d :: r => if is_digit d then digits_prefix (acc * 10 + (d - 48)) r else acc
+  | [] => acc
+  end.
+Definition c_atoi (s : bytes) : Z :=
+  match s with
+  | 45 :: r => (- Z.of_N (digits_prefix 0 r))%Z
+  | 43 :: r => Z.of_N (digits_prefix 0 r)
+  | _ => Z.of_N (digits_prefix 0 s)
+  end.
+
+Definition default_opts (tmo : N) : pam_opts :=
+  {| po_try_first := false; po_use_first := false; po_not_set_pass := false; po_sock := None; po_timeout := tmo |}.
+
+(* _whawty_parse_args, one argument *)
+Definition parse_arg (o : pam_opts) (a : bytes) : pam_opts :=
+  if beq a (str "try_first_pass") then
+    {| po_try_first := true; po_use_first := po_use_first o; po_not_set_pass := po_not_set_pass o; po_sock := po_sock o; po_timeout := po_timeout o |}
+  else if beq a (str "use_first_pass") then
+    {| po_try_first := po_try_first o; po_use_first := true; po_not_set_pass := po_not_set_pass o; po_sock := po_sock o; po_timeout := po_timeout o |}
+  else if beq a (str "not_set_pass") then
+    {| po_try_first := po_try_first o; po_use_first := po_use_first o; po_not_set_pass := true; po_sock := po_sock o; po_timeout := po_timeout o |}
+  else if has_prefix (str "sock=") a then
+    (match skipn 5 a with
+     | [] => o
+     | p => {| po_try_first := po_try_first o; po_use_first := po_use_first o; po_not_set_pass := po_not_set_pass o; po_sock := Some p; po_timeout := po_timeout o |}
+     end)
+  else if has_prefix (str "timeout=") a then
+    (match skipn 8 a with
+     | [] => o
+     | v => if (0 <? c_atoi v)%Z
+            then {| po_try_first := po_try_first o; po_use_first := po_use_first o; po_not_set_pass := po_not_set_pass o; po_sock := po_sock o; po_timeout := Z.to_N (c_atoi v) |}
+            else o
+     end)
+  else o.   (* "debug" and unknown arguments do not influence the result *)
+
+Definition parse_args (tmo0 : N) (args : list bytes) : pam_opts :=
+  fold_left parse_arg args (default_opts tmo0).
+
+(* _whawty_get_password: password on the PAM stack / from the conversation *)
+Definition get_password (o : pam_opts) (stack_pw conv_pw : option bytes) : bytes + pam_code :=
+  let from_conv := match conv_pw with Some p => inl p | None => inr PAM_AUTHTOK_RECOVERY_ERR end in
+  if po_use_first o || po_try_first o then
+    match stack_pw with
+    | Some p => inl p
+    | None => if po_use_first o then inr PAM_AUTHTOK_RECOVERY_ERR else from_conv
+    end
+  else from_conv.
+
+(* what the agent side does on the connection *)
+Record server := {
+  sv_connect : bool;                       (* the socket accepts the connection *)
+  sv_chunks : list (N * bytes)             (* (silence before it in ms, bytes sent) *)
+  (* after the chunks: closed or silent for ever - both end the same way *)
+}.
+
+(* _whawty_read_data: collect [need] bytes; every wait is bounded by the
+   timeout; a close or a silence beyond the timeout gives a short count *)
+Fixpoint read_n (tmo_ms : N) (need : nat) (cs : list (N * bytes)) {struct cs}
+  : option (bytes * list (N * bytes)) :=
+  match need with
+  | O => Some ([], cs)
+  | _ =>
+      match cs with
+      | [] => None
+      | (d, b) :: r =>
+          if tmo_ms <=? d then None
+          else if Nat.leb (length b) need then
+            match read_n tmo_ms (need - length b) r with
+            | Some (x, rest) => Some (b ++ x, rest)
+            | None => None
+            end
+          else Some (firstn need b, (0, skipn need b) :: r)
+      end
+  end.
+
+Definition starts_with_ok (resp : bytes) : bool :=
+  match resp with 79 :: 75 :: _ => true | _ => false end.
+
+(* _whawty_check_password once user and password are known.
+   Result and the request bytes put on the wire. *)
+Definition pam_check (pmax : N) (o : pam_opts) (user pw : bytes) (sv : server) : pam_code * bytes :=
+  if negb (sv_connect sv) then (PAM_AUTHINFO_UNAVAIL, [])
+  else
+    let req := pam_request pmax user pw in
+    let tmo := po_timeout o * 1000 in
+    match read_n tmo 2 (sv_chunks sv) with
+    | Some ([a; b], rest) =>
+        let l := N.min (a * 256 + b) pmax in
+        match read_n tmo (N.to_nat l) rest with
+        | Some (resp, _) => if starts_with_ok resp then (PAM_SUCCESS, req) else (PAM_AUTH_ERR, req)
+        | None => (PAM_AUTHINFO_UNAVAIL, req)
+        end
+    | _ => (PAM_AUTHINFO_UNAVAIL, req)
+    end.
+
+Definition pam_authenticate (pmax tmo0 : N) (args : list bytes) (user : bytes)
+           (stack_pw conv_pw : option bytes) (sv : server) : pam_code * bytes :=
+  let o := parse_args tmo0 args in
+  match get_password o stack_pw conv_pw with
+  | inr code => (code, [])
+  | inl pw => pam_check pmax o user pw sv
+  end.
